@@ -553,16 +553,6 @@ def RMs'.keys : RMs' → List Str
   | .nil => []
   | .cons k _ t => k :: RMs'.keys t
 
-/-- object.go deleteProperty (l.133) on the propertyOrder slice seen through the ORIGINAL slice
-    header: `live` = current length; the removed name's successors shift left inside the shared
-    backing array and the last live slot keeps a stale copy -/
-def orderDelete (name : Str) (backing : List Str) (live : Nat) : List Str × Nat :=
-  match (backing.take live).idxOf? name with
-  | none => (backing, live)
-  | some idx =>
-    if idx + 1 = live then (backing, live - 1)
-    else (backing.take idx ++ (backing.take live).drop (idx + 1) ++ backing.drop (live - 1), live - 1)
-
 mutual
 /-- builtinJSONReviveWalk(holder, name) with `value = holder.get(name)` passed in; returns the
     reviver's result and the keys of the reviver calls in call order.  (Fuel: every call consumes one.) -/
@@ -572,8 +562,7 @@ def reviveM (f : Reviver) : Nat → Str → RV → Option RV × List Str
     let r := reviveArrM f fuel 0 l
     (f name (.arr r.1), r.2 ++ [name])
   | fuel + 1, name, .obj m =>
-    let ks := RMs'.keys m
-    let r := reviveObjM f fuel 0 ks ks.length m
+    let r := reviveObjM f fuel (RMs'.keys m) m
     (f name (.obj r.1), r.2 ++ [name])
   | _ + 1, name, v => (f name v, [name])
 /-- l.46-55: indices 0..length-1; undefined deletes the element (a hole), else it is redefined -/
@@ -584,28 +573,24 @@ def reviveArrM (f : Reviver) : Nat → Nat → RVs → RVs × List Str
     let r := reviveM f fuel (decimalNat i) v
     let rest := reviveArrM f fuel (i + 1) t
     (.cons (match r.1 with | some x => x | none => .undef) rest.1, r.2 ++ rest.2)
-/-- l.57-65: `obj.enumerate` ranges over the propertyOrder slice AS IT WAS when the loop started
-    (length n, shared backing array) while `obj.delete` edits it in place; names whose property is
-    gone are skipped (objectEnumerate reads a zero property: not enumerable).  A name met twice is
-    walked twice, the second time on the value the first visit stored. -/
-def reviveObjM (f : Reviver) : Nat → Nat → List Str → Nat → RMs' → RMs' × List Str
-  | 0, _, _, _, cur => (cur, [])
-  | fuel + 1, i, backing, live, cur =>
-    match backing[i]? with
-    | none => (cur, [])
-    | some name =>
-      match RMs'.get name cur with
-      | none => reviveObjM f fuel (i + 1) backing live cur
-      | some v0 =>
-        let r := reviveM f fuel name v0
-        match r.1 with
-        | none =>
-          let od := orderDelete name backing live
-          let rest := reviveObjM f fuel (i + 1) od.1 od.2 (RMs'.del name cur)
-          (rest.1, r.2 ++ rest.2)
-        | some x =>
-          let rest := reviveObjM f fuel (i + 1) backing live (RMs'.set name x cur)
-          (rest.1, r.2 ++ rest.2)
+/-- l.57-65: `obj.enumerate` (object_class.go objectEnumerate) walks a SNAPSHOT of propertyOrder and
+    skips the names whose property is gone meanwhile; undefined deletes the property, anything else
+    redefines it in place -/
+def reviveObjM (f : Reviver) : Nat → List Str → RMs' → RMs' × List Str
+  | 0, _, cur => (cur, [])
+  | _ + 1, [], cur => (cur, [])
+  | fuel + 1, name :: names, cur =>
+    match RMs'.get name cur with
+    | none => reviveObjM f fuel names cur
+    | some v0 =>
+      let r := reviveM f fuel name v0
+      match r.1 with
+      | none =>
+        let rest := reviveObjM f fuel names (RMs'.del name cur)
+        (rest.1, r.2 ++ rest.2)
+      | some x =>
+        let rest := reviveObjM f fuel names (RMs'.set name x cur)
+        (rest.1, r.2 ++ rest.2)
 end
 
 /-- JSON.parse(text, reviver) for the parsed value `v` whose object properties are in the order
